@@ -3,7 +3,7 @@
    arbitrary; `look` is any state of the identifier cache, so the statements
    hold for fresh and for cached computations alike.                          *)
 From Coq Require Import ZArith NArith List Bool Permutation.
-From XV Require Import core.Value model.Hash model.Edits proofs.Hash_lemmas proofs.Neutral_lemmas proofs.Full_lemmas.
+From XV Require Import core.Value model.Hash model.Edits proofs.Hash_lemmas proofs.Neutral_lemmas proofs.Full_lemmas proofs.MetaMember_lemmas.
 Import ListNotations.
 
 (* The general principle: the identifier of every node depends on a graph only
@@ -80,3 +80,25 @@ Theorem C02_full_identifier : forall H cs cs' h h' fuel n,
   full_pure H cs h fuel n = full_pure H cs' h' fuel n.
 Proof. exact full_pure_ext. Qed.
 Print Assumptions C02_full_identifier.
+
+(* configurations flagged as meta, as list elements or dict values AT ANY DEPTH: hashing a value is
+   hashing its normal form remove_meta (every meta-flagged member removed, recursively) ...      *)
+Theorem C02_hash_ignores_meta_members : forall H cs h look fuel st v,
+  hv H cs h look fuel st v = hv H cs h look fuel st (remove_meta h v).
+Proof. exact hv_strip. Qed.
+Print Assumptions C02_hash_ignores_meta_members.
+
+(* ... and replacing the stored value of a parameter of any node by a value with the same normal
+   form leaves the identifier of EVERY node unchanged - including the decision "equal to the
+   default, hence not hashed", which the pinned commit took on a one-level normal form           *)
+Theorem C02_meta_members_any_depth : forall H cs h look n x k v v',
+  nth_error h n = Some x -> assoc k (n_fields x) = Some v -> remove_meta h v = remove_meta h v' ->
+  forall fuel m, raw_ident H cs h look fuel m
+               = raw_ident H cs (upd_nth h n (with_fields x (set_field k v' (n_fields x)))) look fuel m.
+Proof. exact meta_member_neutral. Qed.
+Print Assumptions C02_meta_members_any_depth.
+
+Theorem C02_default_test_one_level_refuted : exists h d v v',
+  remove_meta h v = remove_meta h v' /\ pyeq d (remove_meta1 h v) <> pyeq d (remove_meta1 h v').
+Proof. exact default_test_one_level_refuted. Qed.
+Print Assumptions C02_default_test_one_level_refuted.
